@@ -405,6 +405,68 @@ def run(ctx):
     thr = [t for lp in num_loops for t in walk(lp) if t.get('kind') == 'CXXThrowExpr']
     ctx.check(not thr, R, 'digit-loops-total', thr[0] if thr else num_loops[0], 'digit accumulation never throws', 'a digit loop rejects some numerals (%s): text the serializer emits for an extreme value is refused' % (src_text(thr[0], 80) if thr else ''))
 
+    # exponent scaling: a loop whose trip count is a parsed value (its condition does not consult the
+    # reader) runs up to 308 times for text %g emits; whatever it accumulates into the float result
+    # must be floating point (10^19 already overflows a 64-bit integer)
+    rp = params_of(P)[0]
+    fvars = {x['id']: x for x in walk(pbody) if x.get('kind') == 'VarDecl' and (dtype(x) or '') in ('double', 'float', 'long double')}
+    # the float result: floating locals handed to a JSON constructor / assigned to the result
+    fres = set()
+    for x in walk(pbody):
+        if x.get('kind') in ('CXXConstructExpr', 'CXXFunctionalCastExpr', 'CXXTemporaryObjectExpr', 'BinaryOperator', 'CXXOperatorCallExpr') and 'JSON' in (qtype(x) or ''):
+            for y in walk(x):
+                rd = ref_decl(y) if y.get('kind') == 'DeclRefExpr' else None
+                if rd and rd.get('id') in fvars:
+                    fres.add(rd['id'])
+    ctx.require(fres, 'parser: the floating-point local that becomes the float result was not found')
+    def _assigns(root):
+        for a in walk(root):
+            k_ = a.get('kind')
+            if k_ in ('BinaryOperator', 'CompoundAssignOperator') and a.get('opcode') in ASSIGN_OPS:
+                rd = ref_decl(a['inner'][0])
+                if rd and rd.get('kind') == 'VarDecl':
+                    yield a, rd, a['inner'][1]
+            elif k_ == 'UnaryOperator' and a.get('opcode') in ('++', '--'):
+                rd = ref_decl(a['inner'][0])
+                if rd and rd.get('kind') == 'VarDecl':
+                    yield a, rd, None
+    value_loops = []
+    for lp in walk(pbody):
+        if lp.get('kind') in ('ForStmt', 'WhileStmt', 'DoStmt'):
+            cond = for_parts(lp)[2] if lp.get('kind') == 'ForStmt' else (while_parts(lp)[0] if lp.get('kind') == 'WhileStmt' else None)
+            if cond is None:
+                continue
+            if any((ref_decl(y) or {}).get('id') == rp['id'] for y in walk(cond) if y.get('kind') == 'DeclRefExpr'):
+                continue
+            cvars = {(ref_decl(y) or {}).get('id') for y in walk(cond) if y.get('kind') == 'DeclRefExpr'}
+            if not any(v_ is not None for v_ in cvars):
+                continue
+            value_loops.append((lp, cvars))
+    n_sc = 0
+    for lp, cvars in value_loops:
+        for a, rd, rhs in _assigns(lp):
+            if rd['id'] in cvars or rd['id'] in fvars:
+                if rd['id'] in fvars:
+                    n_sc += 1
+                    ctx.ok(R, 'exp-scale|%s@%s' % (rd.get('name'), a.get('_line')), a, 'value-counted loop accumulates into the floating-point %s' % rd.get('name'))
+                continue
+            # integer accumulator: does it reach the float result afterwards?
+            reach = {rd['id']}
+            hit = None
+            for _ in range(4):
+                for a2, rd2, rhs2 in _assigns(pbody):
+                    if rhs2 is None or a2.get('_off', 0) < lp.get('_end', lp.get('_off', 0)):
+                        continue
+                    if any((ref_decl(y) or {}).get('id') in reach for y in walk(rhs2) if y.get('kind') == 'DeclRefExpr'):
+                        if rd2['id'] in fres and hit is None:
+                            hit = a2
+                        reach.add(rd2['id'])
+            if hit is not None:
+                ctx.bad(R, 'exp-scale|%s@%s' % (rd.get('name'), a.get('_line')), a,
+                        'the loop counted by a parsed value accumulates into the fixed-width integer `%s` (%s), which then scales the float result at line %s (`%s`): it overflows from 10^19 on, so text %%g emits for large or small magnitudes (1e+20, 1e-30) parses to a wrong value' % (rd.get('name'), dtype(rd), hit.get('_line'), src_text(hit, 50)))
+    if not n_sc and not any(o.rule == R and o.key.startswith('exp-scale') for o in ctx.obs):
+        ctx.undecided(R, 'exp-scale', P, 'no value-counted scaling loop recognised in the number scanner')
+
     # ---- R3 option mapping and trivial constants
     R = 'C04-R3'
     opt = {}
@@ -558,6 +620,21 @@ def run(ctx):
     ok = len(calls) == 1 and (callee_decl(calls[0], u) or {}).get('mangledName') == A.get('mangledName')
     ctx.check(ok, R, 'copy-ctor|delegates', cctor[0], 'copy constructor delegates to the deep-copying assignment', 'copy constructor does not delegate to operator=(const JSON&)')
     check_compare(ctx, u, alts)
+    # strings and keys are arbitrary byte strings: nothing on the serialize / compare path may look at
+    # them through a NUL-terminated view
+    CSTR = ('strcmp', 'strncmp', 'strlen', 'strcoll', 'strcasecmp', 'strncasecmp', 'strcpy', 'strdup', 'strstr', 'strchr', 'strrchr', 'strspn', 'strcspn', 'strtok', 'strnlen')
+    esc_f = [f for f in u.functions if f.get('name') == 'escape_string' and body_of(f) is not None]
+    n_views = 0
+    for f in [ser] + esc_f:
+        for c in walk_deep(body_of(f), u):
+            if c.get('kind') == 'CallExpr' and call_name(c) in CSTR:
+                views = [x for a in call_args(c) for x in walk(a) if x.get('kind') == 'CXXMemberCallExpr' and call_name(x) in ('c_str', 'data') and 'basic_string' in (dtype(member_call_object(x)) or '')]
+                if views:
+                    n_views += 1
+                    ctx.bad('C04-R6', '%s|cstring-view|%s@%s' % (f.get('name'), call_name(c), c.get('_line')), c,
+                            '%s() is applied to %s: a key or string with an embedded NUL byte is handled by its prefix only (ordering / output differ from the std::string the value holds)' % (call_name(c), src_text(views[0], 50)))
+    if not n_views:
+        ctx.ok('C04-R6', 'serialize|no-cstring-view', ser, 'no NUL-terminated view of a key or string on the serialize path', nontrivial=False)
     ctx.note('R1 is exhaustive over (mode, byte): 3 x 256 cases evaluated on the extracted tables, no code executed. Not decided: value equality for every tree, %g rounding, independent JSON implementations.')
 
 
